@@ -36,7 +36,10 @@ pub struct Outcome {
 
 pub fn run_case(case: &Case) -> Outcome {
     WORLD.with(|w| *w.borrow_mut() = World::default());
-    world(|w| w.svc = case.svc.clone());
+    world(|w| {
+        w.svc = case.svc.clone();
+        w.allow_respent = case.allow_respent;
+    });
     let ex = Exec::install();
     // the registry is process-global: empty it before the case starts
     {
